@@ -49,6 +49,10 @@ def check(run, project):
     o2e = mod.functions().get("obj_to_events")
     if o2e is None:
         raise AnalysisError("C11: obj_to_events not found")
+    # A9 (= C15-F2): the decoder's object reaches the caller through every front-end
+    from ..report import RuleView as _RV
+    from . import c15 as _c15
+    _c15.f1_f2(_RV(run, "F2", "A9"), project)
     from .shared import unbound_locals
     unbound_locals(run, project, "A8", (OBJECT,), what="the conversion fails instead of rebuilding the object")
     from .shared import undefined_names
